@@ -83,11 +83,12 @@ pub fn pagerank(
         }
 
         // Check convergence
+        // Same stopping rule as the Python implementation: largest per-node change
         let diff: f64 = scores
             .iter()
             .zip(new_scores.iter())
             .map(|(a, b)| (a - b).abs())
-            .sum();
+            .fold(0.0, f64::max);
 
         std::mem::swap(&mut scores, &mut new_scores);
 
